@@ -16,7 +16,9 @@ type Writer struct {
 }
 
 func NewPacketWriter(totalLen ...int) *Writer {
-	return &Writer{buf: bytebufferpool.Get()}
+	w := &Writer{buf: bytebufferpool.Get()}
+	verifPoolEvent("get", w)
+	return w
 }
 
 func (p2 *Writer) writeNumeric(p any) {
@@ -143,6 +145,7 @@ func (p2 *Writer) Bytes() (data []byte, err error) {
 
 	res := make([]byte, p2.buf.Len())
 	copy(res, p2.buf.Bytes())
+	verifPoolEvent("copy", p2)
 
 	return res, nil
 }
@@ -155,6 +158,7 @@ func (p2 *Writer) BytesWithLength() (data []byte, err error) {
 	res := make([]byte, 4+p2.written)
 	packetOrder.PutUint32(res, uint32(p2.written)+4)
 	copy(res[4:], p2.buf.Bytes())
+	verifPoolEvent("copy", p2)
 
 	return res, nil
 }
@@ -179,6 +183,7 @@ func (p2 *Writer) Error() error {
 }
 
 func (p2 *Writer) Release() {
+	verifPoolEvent("put", p2)
 	bytebufferpool.Put(p2.buf)
 	p2.written = 0
 	p2.opError = nil
